@@ -14,4 +14,17 @@ pub fn run(repo: &str, t: &mut T) {
     let k: [u8; 16] = [0x01, 0x23, 0x45, 0x67, 0x89, 0xab, 0xcd, 0xef, 0xfe, 0xdc, 0xba, 0x98, 0x76, 0x54, 0x32, 0x10];
     let c: [u8; 16] = [0x68, 0x1e, 0xdf, 0x34, 0xd2, 0x06, 0x96, 0x5e, 0x86, 0xb3, 0xe9, 0x4f, 0x53, 0x6e, 0x42, 0x46];
     t.check("sm4 standard example 1", sm4::encrypt(&k, &k) == c && sm4::decrypt(&k, &c) == k);
+
+    use refmodels::aes;
+    for f in ["aes128", "aes192", "aes256"] {
+        let rel = format!("aes/tests/data/{f}.blb");
+        t.kat(repo, &rel, f, &|k, p| aes::encrypt(k, &a16(p)).to_vec(), &|k, c| aes::decrypt(k, &a16(c)).to_vec());
+        t.kat(repo, &rel, "aes eq-inv-cipher", &|k, p| aes::encrypt(k, &a16(p)).to_vec(), &|k, c| aes::decrypt_eq(k, &a16(c)).to_vec());
+    }
+    // FIPS-197 Appendix C.1
+    let k: Vec<u8> = (0u8..16).collect();
+    let p: [u8; 16] = core::array::from_fn(|i| (i as u8) * 0x11);
+    let c: [u8; 16] = [0x69, 0xc4, 0xe0, 0xd8, 0x6a, 0x7b, 0x04, 0x30, 0xd8, 0xcd, 0xb7, 0x80, 0x70, 0xb4, 0xc5, 0x5a];
+    t.check("aes fips-197 C.1", aes::encrypt(&k, &p) == c && aes::decrypt(&k, &c) == p);
+    t.check("aes sbox[0x53]==0xed", aes::sbox(0x53) == 0xed && aes::inv_sbox(0xed) == 0x53);
 }
